@@ -544,6 +544,7 @@ func ruleGroupTrigger(c *Ctx, r *R) {
 			}
 		})
 		okTrig := false
+		condSend := false
 		if trig != nil {
 			nOps := 0
 			seenFn := map[*ssa.Function]bool{}
@@ -557,6 +558,12 @@ func ruleGroupTrigger(c *Ctx, r *R) {
 					nOps++
 					if op.kind == "select" && !op.blocking && len(op.arms) == 1 && op.arms[0].send && (loadCell(argOf(op.arms[0].ch, di.calls)) == trigCell || (mk != nil && resolveVal(argOf(op.arms[0].ch, di.calls)) == ssa.Value(mk))) {
 						okTrig = true
+						// ... attempted on EVERY call of the trigger function: a "one is already outstanding" flag in front
+						// of it swallows the calls made while f runs (the flag is only cleared after f returns), and those
+						// calls are followed by no run
+						if len(guardsOf(op.in.Block())) > 0 {
+							condSend = true
+						}
 					}
 					// the method value's receiver IS the channel (func (c triggerChan) fire())
 					if op.kind == "select" && !op.blocking && len(op.arms) == 1 && op.arms[0].send && trigRecv != nil && len(trig.Params) > 0 && op.arms[0].ch == ssa.Value(trig.Params[0]) && f == trig && isMk(trigRecv) {
@@ -569,6 +576,7 @@ func ruleGroupTrigger(c *Ctx, r *R) {
 			}
 		}
 		r.ok(okTrig, "xsync.Group."+n+"|trigger-is-nonblocking-send", fn.Pos(), "the trigger function must be exactly one non-blocking send on the trigger channel")
+		r.ok(!condSend, "xsync.Group."+n+"|trigger-send-unconditional", fn.Pos(), "the trigger function attempts its send only under a condition (e.g. a pending flag): a call made while the flag is set - in particular while f is running - leaves no token, so no run begins after that call")
 		// worker: receives from c only as an arm of the blocking select that dominates the f call
 		var fcall *ssa.Call
 		for _, di := range deepInstrs(w, 2) { // possibly in a loop helper shared by the workers
